@@ -89,7 +89,7 @@ func de(name string, t Val) dent { return dent{[]byte(name), t, true} }
 var c17Benign = []string{"a", "b", "c", "d", "e", "x", "ld", "rel", "dang", "loop", "in", "unknown", "inner", "keep", "sib", "out", "target"}
 var c17Hostile = []string{"..", ".", "", "a/b", "d/inner", "d/x", "d/new", "x/y", "ld/keep", "ld/new", "/abs", c17Outside + "/target",
 	c17Outside + "/new2", "../sib", "../new3", "../../outside/target", "../../outside/new4", "d/../../sib", "a//b", "a/", "/", "./a", "a/.",
-	"a/..", "d/..", "a\x00b", "\xc3\xbc", "a b", "-r", "a\nb", "..a", "...", "in/inner", "in/new5", "dd/sib", "dd/new6"}
+	"a/..", "d/..", "a\x00b", "\xc3\xbc", "a b", "-r", "a\nb", "..a", "...", "in/inner", "in/new5", "dd/sib", "dd/new6", "ld/n1/n2", "x/n1/n2", "dd/w/new7/new8", "d/n1/n2"}
 
 var c17Targets = []string{c17Outside + "/target", c17Outside + "/dir", c17Outside + "/newfile", c17Outside + "/dir/newfile",
 	"../sib", "../new7", "../../outside/target", "../../outside/dir", "../../outside/new8", "d", "a", ".", "..", "", c17Out, c17Out + "/d", "x", "loop",
@@ -464,6 +464,8 @@ func init() {
 			{"dotdot-symlink-entry-then-second-root", with(), VL{rootN(dirV(0, de("..", linkV(c17Outside+"/dir")))), rootN(dirV(0, de("pwn", f1("PWNED"))))}, 0},
 			{"dot-symlink-entry-then-second-root", with(), VL{rootN(dirV(0, de(".", linkV(c17Outside+"/dir")))), rootN(dirV(0, de("pwn", f1("PWNED"))))}, 0},
 			{"empty-name-symlink-entry-then-second-root", with(), VL{rootN(dirV(0, dent{nil, linkV("../../outside/dir"), false})), rootN(dirV(0, de("keep", f1("PWNED"))))}, 0},
+			{"name-with-separators-below-symlink-entry", with(), VL{rootN(dirV(0, de("a", linkV(c17Outside+"/dir")), de("a/b/c", f1("PWNED")), de("after", f1("A"))))}, 0},
+			{"name-with-separators-below-prepopulated-symlink", with(fsLink(c17Outside+"/dir", outp("ld")...)), VL{rootN(dirV(0, de("ld/n1/n2", missV([]byte("n"))), de("ld/n3/n4/n5", dirV(0))))}, 1},
 			{"symlink-chain-then-file", with(), VL{rootN(dirV(0, de("y", linkV(tgt)), de("x", linkV("y")), de("x", f1("PWNED"))))}, 0},
 			{"missing-blocks", with(), VL{rootN(dirV(0, de("a", missV([]byte("1"))), de("b", f1("B")), de("c", fileErrV([]byte("0123456789"), 3, 2, 1))))}, 0},
 			{"missing-root", with(), VL{rootN(dirV(0, de("a", f1("A")))), rootN(missV([]byte("2")))}, 0},
@@ -523,10 +525,19 @@ func init() {
 				c17Emit(c, "directed:cwd-no-argument:"+sc.name, sc.fs, od, "", sc.roots, VL{VN(0), VN(0), VN(1)}, sc.pre)
 			}
 		}
+		// output directory "-": contents go to standard output, nothing may be touched anywhere
+		for _, sc := range scens {
+			switch sc.name {
+			case "benign", "benign-chunked", "benign-file-root", "symlink-then-file", "missing-blocks", "dotdot-names",
+				"raw-root-and-dir", "symlink-root", "file-then-dir-same-name", "mode-on-benign-entries", "absolute-names":
+				c17Emit(c, "directed:stdout:"+sc.name, sc.fs, "-", "", sc.roots, VL{vbool(r.Chance(30)), VN(0), VN(0)}, sc.pre)
+			}
+		}
 		// --path on directed trees
 		ptree := VL{rootN(dirV(0, de("a", f1("A")), de("d", dirV(0, de("b", f1("B")), de("x", linkV(tgt)), de("x", f1("PWNED")))), de("d", f1("second"))))}
 		for _, pf := range []string{"a", "d", "d/b", "d/x", "/d/b/", "nosuch", "d/nosuch", "a/b", "d//b", "./a", "..", "d/..", "/"} {
 			c17Emit(c, "directed:path-flag", with(), pick(r, []string{c17Out, "out"}), pf, ptree, optFile, 0)
+			c17Emit(c, "directed:stdout:path-flag", with(), "-", pf, ptree, optFile, 0)
 		}
 
 		// ---- thorough: every ordered pair of entries over a small alphabet of (name, node) in one
@@ -575,6 +586,11 @@ func init() {
 			od := pick(gr, c17Outdirs)
 			if oddOut {
 				od = pick(gr, c17OddOutdirs)
+			}
+			if gr.Chance(6) {
+				od = "-"
+				oddOut = true
+				g.c.Count("outdir:stdout")
 			}
 			nroots := pick(gr, []int{1, 1, 1, 2, 2, 3})
 			roots := VL{}
